@@ -1,0 +1,21 @@
+//go:build !verif
+
+// Package verifhook provides named suspension points, fault points, events and
+// counters for external runtime monitors. Without the "verif" build tag every
+// function is an empty, inlinable no-op.
+package verifhook
+
+// Enabled reports whether the hooks were compiled in.
+const Enabled = false
+
+// Point marks a suspension point between two steps of the surrounding code.
+func Point(name string, kv ...string) {}
+
+// Fault returns an injected error for the named operation, or nil.
+func Fault(name string, kv ...string) error { return nil }
+
+// Event records a semantic event.
+func Event(name string, kv ...string) {}
+
+// Count increments a named operation counter.
+func Count(name string) {}
